@@ -6,6 +6,8 @@ Require Import BFL.Ops BFL.C11_Model.
 Require Import Extraction ExtrOcamlBasic.
 
 Extraction "C11_model.ml"
-  mk get gm_ctor gauss_ctor ps_ctor gm_apply gauss_apply ps_apply gm_augment ps_augment
-  gm_mean gm_cov gm_weight gm_mean_el gm_cov_el gauss_mean gauss_cov gauss_weight
-  ps_state ps_state_el gm_consistentb ps_consistentb ps_concat_defined gm_augment_defined.
+  mk get gm_ctor gauss_ctor ps_ctor gm_apply gauss_apply ps_apply gop_defined gaussop_defined pop_defined
+  gm_run gauss_run ps_run gm_augment ps_augment
+  gm_mean gm_cov gm_weight gm_mean_el gm_cov_el gauss_mean gauss_cov gauss_weight gauss_mean_el gauss_cov_el
+  ps_state ps_state_el gm_consistentb ps_consistentb ps_concat_defined ps_concat_self_defined
+  gm_augment_defined gm_augment_self_defined.
